@@ -458,12 +458,30 @@ def run_com(prog, pre, post, mode, tid, origin):
     return ev
 
 
+def self_pre(prog, post):
+    """box & wp, where wp is what compute_wp returns on a fresh object (input construction only)"""
+    try:
+        wp = enc_expr(dec_com(prog).compute_wp(dec_expr(post)))
+    except Exception:
+        return None
+    if "?" in json.dumps(wp):
+        return None
+    return boxed(IBOX, wp)
+
+
 def main_com(vec_path, out_path, seed, nrandom, maxnest, twice_every, tid_base=0):
     from logic import basic
     basic.load_theory("hoare")
     rnd = random.Random(seed * 7919 + 20 + tid_base)
     tid = tid_base
     n = 0
+    selfdone, seen = set(), set()
+    allkeys = set()
+    with open(vec_path) as f:
+        for ln in f:
+            if ln.strip():
+                v = json.loads(ln)
+                allkeys.add(digest([v["prog"], v["pre"], v["post"]]))
     with open(out_path, "w") as out:
         def emit(ev):
             out.write(json.dumps(ev, separators=(",", ":")) + "\n")
@@ -478,6 +496,16 @@ def main_com(vec_path, out_path, seed, nrandom, maxnest, twice_every, tid_base=0
                 n += 1
                 tid += 1
                 emit(run_com(v["prog"], v["pre"], v["post"], "fresh", tid, "tlc"))
+                seen.add(digest([v["prog"], v["pre"], v["post"]]))
+                k = digest([v["prog"], v["post"]])
+                if k not in selfdone:
+                    # the same program and postcondition, precondition := box & (the wp the code itself computes);
+                    # on a correct tree this coincides with the reference-wp triple of the universe and is skipped
+                    selfdone.add(k)
+                    sp = self_pre(v["prog"], v["post"])
+                    if sp is not None and digest([v["prog"], sp, v["post"]]) not in allkeys:
+                        tid += 1
+                        emit(run_com(v["prog"], sp, v["post"], "fresh", tid, "tlc-selfpre"))
                 if twice_every and n % twice_every == 0:
                     tid += 1
                     emit(run_com(v["prog"], v["pre"], v["post"], "twice", tid, "tlc"))
@@ -488,6 +516,11 @@ def main_com(vec_path, out_path, seed, nrandom, maxnest, twice_every, tid_base=0
             post = g.assertion()
             tid += 1
             emit(run_com(prog, pre, post, "twice" if i % 10 == 9 else "fresh", tid, "random"))
+            if i % 2 == 0:
+                sp = self_pre(prog, post)
+                if sp is not None:
+                    tid += 1
+                    emit(run_com(prog, sp, post, "fresh", tid, "random-selfpre"))
 
 
 # ------------------------------------------------------------------------------------------------
@@ -541,6 +574,9 @@ class HolBuild:
             return Or(self.b(j[1]), self.b(j[2]))
         if k == "imp":
             return Implies(self.b(j[1]), self.b(j[2]))
+        if k == "ite":
+            from logic import logic
+            return logic.mk_if(self.b(j[1]), self.b(j[2]), self.b(j[3]))
         raise ValueError("HolBuild.b: %r" % (j,))
 
     def pred(self, j):
